@@ -91,4 +91,41 @@ def splitLeaf : LeafFn := fun a args kw =>
 def libSplit (v : Val) (sep : String) (dedup : Bool) : Res Val :=
   wrapped splitLeaf v [] [("sep", .cell (.str sep)), ("dedup", .cell (.bool dedup))]
 
+/-! ### `replace` of one character (round k6)
+
+      _replace(text, old, new = None):                                                        (_txt.py:55-64)
+          if is_str(text):
+              new = new or ''
+              for arg in as_list(old):
+                  if arg in new: raise ValueError('cannot replace indefinitely ...')
+                  while arg in text: text = text.replace(arg, new)
+          return text
+
+  for `old` a string of ONE character and `new` a string or None: the `while` loop runs at most once (the result holds no `old`
+  since `new` does not).  Several / longer strings to replace are not modelled.
+  ASSUMPTION (sampled): `str.replace(c, new)` puts `new` in the place of every occurrence of the character. -/
+
+/-- `text.replace(old, new)` for a one-character `old` -/
+def replaceChars (old : Char) (new : List Char) (cs : List Char) : List Char :=
+  cs.flatMap fun c => if c = old then new else [c]
+
+/-- `new.join(w :: ws)` -/
+def joinStr (new : List Char) (w : List Char) (ws : List (List Char)) : List Char := w ++ ws.flatMap fun x => new ++ x
+
+def replaceLeaf : LeafFn := fun a args kw =>
+  match args, kw with
+  | [], [("old", .cell (.str o)), ("new", nv)] =>
+    match o.toList, (match nv with | .cell (.str n) => some n.toList | .cell .none => some [] | _ => Option.none) with
+    | [c], some n =>
+      match a with
+      | .cell (.str t) =>
+        if n.contains c then .error .value else .ok (.cell (.str (String.ofList (replaceChars c n t.toList))))
+      | v => .ok v
+    | _, _ => .error .other
+  | _, _ => .error .other
+
+/-- `pyg_base.replace(value, old, new)` = `_replace(value, old = old, new = new)` -/
+def libReplace (v : Val) (old : String) (new : Val) : Res Val :=
+  wrapped replaceLeaf v [] [("old", .cell (.str old)), ("new", new)]
+
 end Pyg
